@@ -9,6 +9,7 @@ func init() {
 		Rule: "episodes with TunePool sequences under gated load and/or Stop/Restart cycles and/or idle expiry, with >=1 at-rest census of the library's goroutines; distinct = schedule/program hash",
 		Gen: func(r *simrt.Rand, tier string) (Cfg, *Program) {
 			pf := baseProfile()
+	pf.ReenterPct, pf.ReenterTune = 8, true // worker functions that call back into the library, TunePool included
 			pf.WrapDeqPct = 15 // user-supplied queues that refuse a dequeue now and then
 			pf.Conc = []int{1, 2, 3, 4, 8}
 			pf.Ratio = []int{0, 1, 25, 50, 100}
